@@ -221,9 +221,15 @@ def h_mpic_lut_monotone(H):
 PROPERTY = {
     'C16': dict(
         level='other',
-        explanation='O1-O6 are post-conditions / relational clauses of the real cost functions over all valid (relaxed) layer descriptions; '
-                    'NE16 and DIANA-analog monotonicity are listed under not_decided until their lemma route is discharged',
-        not_decided=['float32 rounding of the latency formulas (A-real)'],
+        explanation='O1-O6 are post-conditions / relational clauses of the real cost functions over all valid (relaxed) layer descriptions: every function '
+                    'registered in params, params_no_bias, params_bit, ops, ops_no_bias, ops_bit, gap8_latency, mpic_latency, mpic_energy, ne16_latency and '
+                    'diana_latency, the rounding helpers and the MPIC look-up table.  NE16: one dimension varied at a time; monotonicity in the output channels of '
+                    '3x3 / 1x1 convolutions goes through two lemmas on the real code (latency factorises over spatial tiles; monotone at a single output position) '
+                    'and an arithmetic skeleton.  The ratio ops/latency that Ne16PerfModel_generalized computes and discards is 0/0 for an empty layer: reported '
+                    'as an undefined intermediate that does not reach the result, not as a violation.',
+        not_decided=['float32 rounding of the latency formulas (A-real)', 'joint (several dimensions at once) monotonicity for NE16 / DIANA follows from the '
+                     'one-dimension-at-a-time clauses by transitivity (not machine-checked)', 'w_theta_alpha other than 1 in the NE16 model (relaxed weight of a '
+                     'precision during the search)', 'GateSTE.backward (smooth-step gradient, not pass-through by design)'],
         assumptions=['valid layer description V(spec) as stated in contracts/c16.py'],
     ),
 }
@@ -262,4 +268,235 @@ HARNESSES = [
          quick=[{}], thorough=[{}]),
     dict(name='mpic-lut-monotone', fn='h_mpic_lut_monotone', property='C16', functions=['plinio/cost/mpic_latency.py::_mpic_lut'],
          quick=[{}], thorough=[{}]),
+]
+
+
+# ------------------------------------------------------------------------------------------------- NE16
+def _ne16_spec(H, kind, tag, theta):
+    s = {'in_precision': torch.tensor(8), 'w_theta_alpha': theta}
+    w = H.itensor('wbits' + tag, ())
+    H.assume(H.or_(H.eq(w, 2), H.eq(w, 4), H.eq(w, 8)))
+    s['w_precision'] = w
+    if kind == 'linear':
+        cin, cout = H.tensor('cin' + tag, ()), H.tensor('cout' + tag, ())
+        s['in_features'], s['out_features'] = cin, cout
+        dims = []
+    else:
+        if kind == 'dw':
+            cin = H.tensor('c' + tag, ())
+            cout = cin
+            s['groups'] = cin
+        else:
+            cin, cout = H.tensor('cin' + tag, ()), H.tensor('cout' + tag, ())
+            s['groups'] = 1
+        s['in_channels'], s['out_channels'] = cin, cout
+        s['kernel_size'] = (1, 1) if kind == '1x1' else (3, 3)
+        ho, wo = H.int('ho' + tag), H.int('wo' + tag)
+        H.assume(H.and_(ho >= 1, wo >= 1))
+        s['output_shape'] = (1, 4, ho, wo)
+        dims = [ho, wo]
+    H.assume(H.and_(H.ge(cin, 0), H.ge(cout, 0)))
+    return s, cin, cout, dims, w
+
+
+def _ne16_fn(kind):
+    if kind == 'linear':
+        return ne16_latency[(nn.Linear, {'in_features': 8, 'out_features': 4})]
+    g = 4 if kind == 'dw' else 1
+    return ne16_latency[(nn.Conv2d, {'in_channels': 4, 'out_channels': 4, 'groups': g, 'kernel_size': (3, 3)})]
+
+
+def h_ne16(H, kind, vary, unit=False):
+    """O1-O3 for the NE16 latency model (8-bit activations, 3x3 / 1x1 / depth-wise 3x3 / linear), one dimension varied at a time:
+    description B is description A with only the varied field raised (all other fields are the same terms)"""
+    fn = _ne16_fn(kind)
+    one = torch.tensor(1.0)
+    sA, cinA, coutA, dimsA, wA = _ne16_spec(H, kind, 'A', one)
+    sB = dict(sA)
+    kin, kout = ('in_features', 'out_features') if kind == 'linear' else ('in_channels', 'out_channels')
+    if vary in ('cin', 'cout'):
+        hi = H.tensor(vary + 'B', ())
+        H.assume(H.ge(hi, cinA if vary == 'cin' else coutA))
+        if kind == 'dw':
+            sB[kin], sB[kout], sB['groups'] = hi, hi, hi
+        else:
+            sB[kin if vary == 'cin' else kout] = hi
+    elif vary == 'bits':
+        wB = H.itensor('wbitsB', ())
+        H.assume(H.and_(H.or_(H.eq(wB, 2), H.eq(wB, 4), H.eq(wB, 8)), H.ge(wB, wA)))
+        sB['w_precision'] = wB
+    else:
+        d = H.int(vary + 'B')
+        i = 0 if vary == 'ho' else 1
+        H.assume(d >= dimsA[i])
+        sB['output_shape'] = (1, 4, d, dimsA[1]) if i == 0 else (1, 4, dimsA[0], d)
+    label = 'ne16:monotone-in-' + vary
+    if unit and kind != 'linear':
+        # lemma route, step (ii): the claim at a single output position (n_spatial = 1); step (i) is h_ne16_factorisation
+        sA['output_shape'] = (1, 4, 1, 1)
+        sB['output_shape'] = (1, 4, 1, 1)
+        label = label + '@single-output-position'
+    if vary != 'bits':
+        wc = torch.tensor(H.concretize(H.scalar(wA)))            # 2, 4 or 8: one path each, the bit-width becomes a constant of the formula
+        sA['w_precision'] = wc
+        sB['w_precision'] = wc
+    fA = H.scalar(fn(sA))
+    fB = H.scalar(fn(sB))
+    H.observe('fA', fA)
+    H.observe('fB', fB)
+    H.ensure('ne16:non-negative', H.ge(fA, 0))
+    H.ensure('ne16:positive-for-non-empty-layer', H.implies(H.and_(H.ge(cinA, 1), H.ge(coutA, 1)), H.gt(fA, 0)))
+    H.ensure(label, H.le(fA, fB))
+
+
+def h_ne16_factorisation(H, kind):
+    """lemma route, step (i): latency(ho, wo, ...) == ceil(ho/3) * ceil(wo/3) * latency(1, 1, ...)  (the spatial tiling multiplies a
+    per-tile latency that does not depend on the output resolution)"""
+    fn = _ne16_fn(kind)
+    s, cin, cout, dims, w = _ne16_spec(H, kind, '', torch.tensor(1.0))
+    wc = torch.tensor(H.concretize(H.scalar(w)))
+    s['w_precision'] = wc
+    s1 = dict(s)
+    s1['output_shape'] = (1, 4, 1, 1)
+    f = H.scalar(fn(s))
+    f1 = H.scalar(fn(s1))
+    tiles = ((dims[0] - 1) // 3 + 1) * ((dims[1] - 1) // 3 + 1)          # ceil(ho/3) * ceil(wo/3), written as the model writes it
+    H.ensure('ne16:latency-factorises-over-spatial-tiles', H.eq(f, H.mul(tiles, f1)))
+    H.ensure('ne16:number-of-spatial-tiles-is-positive', H.ge(tiles, 1))
+
+
+def h_ne16_skeleton(H):
+    """lemma route, step (iii): F_A = a*g_A, F_B = a*g_B, a >= 0, g_A <= g_B  ==>  F_A <= F_B   (pure arithmetic over opaque reals;
+    each hypothesis is a discharged obligation: (i) h_ne16_factorisation, (ii) h_ne16 with unit=True)"""
+    a, gA, gB, FA, FB = H.real('a'), H.real('gA'), H.real('gB'), H.real('FA'), H.real('FB')
+    H.assume(H.and_(FA == a * gA, FB == a * gB, a >= 0, gA <= gB))
+    H.ensure('ne16:monotone-in-cout-from-the-two-lemmas', FA <= FB)
+
+
+def h_ne16_rejects(H, kind):
+    """O6: NE16 rejects activations other than 8 bit and kernels other than 3x3 / 1x1 (3x3 for depth-wise); 0-bit weights cost 0"""
+    fn = _ne16_fn(kind)
+    s, cin, cout, dims, w = _ne16_spec(H, kind, '', torch.tensor(1.0))
+    a = H.itensor('abits', ())
+    s['in_precision'] = a
+    raised = False
+    try:
+        fn(s)
+    except AssertionError:
+        raised = True
+    H.ensure('ne16:rejects-non-8-bit-activations', raised == (not H.eq(a, 8)) if not H.symbolic else H.iff(raised, H.not_(H.eq(a, 8))))
+    if kind in ('3x3', 'dw'):
+        s2, _, _, _, _ = _ne16_spec(H, kind, 'K', torch.tensor(1.0))
+        s2['kernel_size'] = (5, 5)
+        bad = False
+        try:
+            fn(s2)
+        except AssertionError:
+            bad = True
+        H.ensure('ne16:rejects-unsupported-kernel', bad)
+    s3, _, _, _, _ = _ne16_spec(H, kind, 'Z', torch.tensor(1.0))
+    s3['w_precision'] = torch.tensor(0)
+    H.ensure('ne16:zero-bit-weights-cost-nothing', H.eq(H.scalar(fn(s3)), 0))
+
+
+HARNESSES = HARNESSES + [
+    dict(name='ne16', fn='h_ne16', property='C16', functions=['plinio/cost/ne16_latency.py::<Ne16PerfModel, Ne16PerfModel_generalized and the three registered models>'],
+         quick=[dict(kind=k, vary=v, unit=(v == 'cout' and k in ('3x3', '1x1'))) for k in ('3x3', '1x1', 'dw', 'linear')
+                for v in (('cin', 'cout', 'bits') + (('ho', 'wo') if k != 'linear' else ())) if not (k == 'dw' and v == 'cout')],
+         thorough=[dict(kind=k, vary=v, unit=(v == 'cout' and k in ('3x3', '1x1'))) for k in ('3x3', '1x1', 'dw', 'linear')
+                   for v in (('cin', 'cout', 'bits') + (('ho', 'wo') if k != 'linear' else ())) if not (k == 'dw' and v == 'cout')], timeout=90),
+    dict(name='ne16-factorisation', fn='h_ne16_factorisation', property='C16', functions=['plinio/cost/ne16_latency.py::Ne16PerfModel.latency'],
+         quick=[dict(kind=k) for k in ('3x3', '1x1')], thorough=[dict(kind=k) for k in ('3x3', '1x1', 'dw')], timeout=90),
+    dict(name='ne16-skeleton', fn='h_ne16_skeleton', property='C16', functions=[], quick=[{}], thorough=[{}], crosscheck=0),
+    dict(name='ne16-rejects', fn='h_ne16_rejects', property='C16', functions=['plinio/cost/ne16_latency.py::_ne16_latency_conv2d_generic'],
+         quick=[dict(kind=k) for k in ('3x3', '1x1', 'dw', 'linear')], thorough=[dict(kind=k) for k in ('3x3', '1x1', 'dw', 'linear')]),
+]
+
+
+# ------------------------------------------------------------------------------------------------- DIANA
+def _diana_spec(H, tag, wbits, linear):
+    s = {'w_precision': wbits, 'a_precision': 8}
+    cin, cout = H.tensor('cin' + tag, ()), H.tensor('cout' + tag, ())
+    H.assume(H.and_(H.ge(cin, 0), H.ge(cout, 0)))
+    if linear:
+        s['in_features'], s['out_features'] = cin, cout
+        s['output_shape'] = (1, 4)
+        return s, cin, cout, []
+    s['in_channels'], s['out_channels'], s['groups'] = cin, cout, 1
+    kx, ky, ox, oy = H.int('kx' + tag), H.int('ky' + tag), H.int('ox' + tag), H.int('oy' + tag)
+    for v in (kx, ky, ox, oy):
+        H.assume(v >= 1)
+    s['kernel_size'] = (kx, ky)
+    s['output_shape'] = (1, 4, ox, oy)
+    return s, cin, cout, [kx, ky, ox, oy]
+
+
+def h_diana(H, wbits, linear, vary):
+    """O1-O3 for the DIANA latency model: w = 8 -> digital accelerator, w = 2 -> analog accelerator (8-bit activations)"""
+    fn = diana_latency[(nn.Linear, {'in_features': 4, 'out_features': 4})] if linear else \
+        diana_latency[(nn.Conv2d, {'in_channels': 4, 'out_channels': 4, 'groups': 1, 'kernel_size': (3, 3)})]
+    sA, cinA, coutA, dA = _diana_spec(H, 'A', wbits, linear)
+    sB = dict(sA)
+    kin, kout = ('in_features', 'out_features') if linear else ('in_channels', 'out_channels')
+    if vary in ('cin', 'cout'):
+        hi = H.tensor(vary + 'B', ())
+        H.assume(H.ge(hi, cinA if vary == 'cin' else coutA))
+        sB[kin if vary == 'cin' else kout] = hi
+    else:
+        i = ('kx', 'ky', 'ox', 'oy').index(vary)
+        d = H.int(vary + 'B')
+        H.assume(d >= dA[i])
+        dims = list(dA)
+        dims[i] = d
+        sB['kernel_size'] = (dims[0], dims[1])
+        sB['output_shape'] = (1, 4, dims[2], dims[3])
+    fA, fB = H.scalar(fn(sA)), H.scalar(fn(sB))
+    H.observe('fA', fA)
+    H.observe('fB', fB)
+    H.ensure('diana:non-negative', H.ge(fA, 0))
+    H.ensure('diana:positive-for-non-empty-layer', H.implies(H.and_(H.ge(cinA, 1), H.ge(coutA, 1)), H.gt(fA, 0)))
+    H.ensure('diana:monotone-in-' + vary, H.le(fA, fB))
+
+
+def h_diana_rejects(H):
+    """O6: any precision pair other than (w, a) in {(2, 8), (8, 8)} is rejected; the analog accelerator rejects grouped convolutions"""
+    fn = diana_latency[(nn.Conv2d, {'in_channels': 4, 'out_channels': 4, 'groups': 1, 'kernel_size': (3, 3)})]
+    w, a = H.int('w'), H.int('a')
+    s = {'w_precision': w, 'a_precision': a, 'in_channels': torch.tensor(4.0), 'out_channels': torch.tensor(4.0), 'groups': 1,
+         'kernel_size': (3, 3), 'output_shape': (1, 4, 2, 2)}
+    raised = False
+    try:
+        fn(s)
+    except ValueError:
+        raised = True
+    H.ensure('diana:rejects-unsupported-precisions', H.iff(raised, H.not_(H.and_(a == 8, H.or_(w == 2, w == 8)))))
+    s2 = dict(s)
+    s2['w_precision'], s2['a_precision'], s2['groups'] = 2, 8, 4
+    bad = False
+    try:
+        fn(s2)
+    except ValueError:
+        bad = True
+    H.ensure('diana:analog-accelerator-rejects-grouped-convolutions', bad)
+
+
+def h_gate_ste(H):
+    x = H.tensor('ch', (2,))
+    th = 1.0
+    y = GateSTE.apply(x, th)
+    H.ensure('GateSTE:one-at-or-above-threshold-else-zero', H.and_(*[H.eq(H.elements(y)[i], H.ite(H.ge(H.elements(x)[i], th), 1, 0)) for i in range(2)]))
+
+
+HARNESSES = HARNESSES + [
+    dict(name='diana', fn='h_diana', property='C16',
+         functions=['plinio/cost/diana_latency.py::_diana_latency_conv2d_generic', 'plinio/cost/diana_latency.py::_diana_latency_linear',
+                    'plinio/cost/diana_latency.py::_analog_cycles', 'plinio/cost/diana_latency.py::_digital_cycles',
+                    'plinio/cost/diana_latency.py::ComputeOxUnrollSTE.forward', 'plinio/cost/diana_latency.py::GateSTE.forward'],
+         quick=[dict(wbits=w, linear=False, vary=v) for w in (8, 2) for v in ('cin', 'cout', 'kx', 'ky', 'ox', 'oy')] +
+               [dict(wbits=w, linear=True, vary=v) for w in (8, 2) for v in ('cin', 'cout')],
+         thorough=[dict(wbits=w, linear=False, vary=v) for w in (8, 2) for v in ('cin', 'cout', 'kx', 'ky', 'ox', 'oy')] +
+                  [dict(wbits=w, linear=True, vary=v) for w in (8, 2) for v in ('cin', 'cout')], timeout=60),
+    dict(name='diana-rejects', fn='h_diana_rejects', property='C16', functions=['plinio/cost/diana_latency.py::_diana_latency_conv2d_generic'],
+         quick=[{}], thorough=[{}]),
+    dict(name='gate-ste', fn='h_gate_ste', property='C16', functions=['plinio/cost/diana_latency.py::GateSTE.forward'], quick=[{}], thorough=[{}]),
 ]
